@@ -9,7 +9,7 @@ from vf.runner import Sub
 
 ID = "C18"
 RULE = ("Cases are constraint expression trees. Exhaustive part: every tree over NOT + the 7 binary logical "
-        "operators of depth <= 2 on names {A,B,C} (33 399 trees; quick runs all depth<=1 trees and a seeded "
+        "operators of depth <= 2 on names {A,B,C} and again on the case twins {A,a,B} (2 x 33 399 trees; quick runs all depth<=1 trees and a seeded "
         "slice of depth-2 trees). Random part: trees to depth 5 on <= 5 names, the seven documented simple forms "
         "for all ordered name pairs (also with odd names), and arithmetic/aggregate trees for the kind predicates. "
         "Non-trivial: tree with an XOR/EQUIVALENCE root, a NOT over a binary operator, or any arithmetic/aggregate "
@@ -53,15 +53,25 @@ def all_trees(depth):
     return _CACHE[depth]
 
 
+def _rename(e, mapping):
+    if e[0] == "T":
+        return ["T", mapping[e[1]]]
+    return [e[0]] + [_rename(x, mapping) for x in e[1:]]
+
+
+CASE_TWINS = {"A": "A", "B": "a", "C": "B"}      # second alphabet {A, a, B}: names differing only in letter case
+
+
 def enum_exhaustive(tier, seed):
     d1 = all_trees(1)
     d2 = all_trees(2)
     if tier == "thorough":
-        return [{"ast": e} for e in d2]
+        return [{"ast": e} for e in d2] + [{"ast": _rename(e, CASE_TWINS)} for e in d2]
     rest = d2[len(d1):]
     stride = 8
     off = int(seed) % stride
-    return [{"ast": e} for e in d1] + [{"ast": e} for e in rest[off::stride]]
+    twins = [{"ast": _rename(e, CASE_TWINS)} for e in d1] + [{"ast": _rename(e, CASE_TWINS)} for e in rest[(off + 3) % stride::stride]]
+    return [{"ast": e} for e in d1] + [{"ast": e} for e in rest[off::stride]] + twins
 
 
 def simple_forms(a, b):
@@ -86,6 +96,11 @@ def random_cases(draw):
         e = _any_ctc(draw, names, None)
         return {"ast": e}
     names = draw(st.lists(st.one_of(S.ident_names(), S.unicode_names_nodot()), min_size=1, max_size=5, unique=True))
+    if draw(st.integers(0, 2)) == 0:
+        # names differing only in letter case / blanks (constraint equality in the library is case-insensitive)
+        v = draw(st.sampled_from(S.VARIANTS_TEXT))(draw(st.sampled_from(names)))
+        if v not in names:
+            names.append(v)
     depth = draw(st.integers(2, 5))
     return {"ast": _cap_xor(draw(S.expr_of_depth(names, logic.LOGICAL, depth)), [3 if depth <= 3 else 2 if depth == 4 else 1])}
 
